@@ -1,1 +1,2 @@
 import Drv.Browser
+import Drv.Diag
